@@ -221,29 +221,7 @@ func genIngestSpec(r *rand.Rand, thorough bool) (*TableSpec, uint64, int, rune, 
 	}
 	t := GenTable(r, nCols, n, pk, mode)
 	tags := []string{}
-	if r.Intn(8) == 0 && nCols >= 2 && len(pk) != 1 && len(t.Rows) > 1 {
-		// composite (or absent) keys whose cells are prefixes of one another and hold the bytes a
-		// flattened key would use as separators (0x00, 0x01, 0x1f, tab): distinct keys, in an order
-		// that only a column-by-column comparison gets right
-		sepAlphabet := []string{"", "k", "k\x00", "\x00", "\x00b", "b", "k\x01", "k\x00b", "\x1f", "\t"}
-		kc := pk
-		if len(kc) == 0 {
-			kc = []int{0, 1}
-		}
-		pairs := r.Perm(len(sepAlphabet) * len(sepAlphabet))
-		for i := 0; i < len(t.Rows) && i < len(pairs); i++ {
-			t.Rows[i][kc[0]] = sepAlphabet[pairs[i]/len(sepAlphabet)]
-			t.Rows[i][kc[1]] = sepAlphabet[pairs[i]%len(sepAlphabet)]
-		}
-		if len(pk) == 0 && nCols == 2 {
-			// no row may consist of empty cells only (a blank CSV line is not a record)
-			for _, row := range t.Rows {
-				if row[0] == "" && row[1] == "" {
-					row[1] = "\x00\x00"
-				}
-			}
-		}
-		r.Shuffle(len(t.Rows), func(i, j int) { t.Rows[i], t.Rows[j] = t.Rows[j], t.Rows[i] })
+	if r.Intn(8) == 0 && plantPrefixKeys(r, t, pk) {
 		tags = append(tags, "separator-bytes-in-key")
 	}
 	if r.Intn(4) == 0 && len(t.Rows) > 0 {
@@ -290,6 +268,37 @@ func genIngestSpec(r *rand.Rand, thorough bool) (*TableSpec, uint64, int, rune, 
 		comma = []rune{'|', ';', '\t'}[r.Intn(3)]
 	}
 	return t, runSize, workers, comma, tags
+}
+
+// plantPrefixKeys: composite (or absent) keys whose cells are prefixes of one another, of different
+// lengths, and hold the bytes a flattened key would use as separators (0x00, 0x01, 0x1f, tab):
+// distinct keys, many of them tying on the leading column, in an order that only a column-by-column
+// comparison of the cells gets right. Reports whether the table qualified.
+func plantPrefixKeys(r *rand.Rand, t *TableSpec, pk []int) bool {
+	nCols := len(t.Columns)
+	if nCols < 2 || len(pk) == 1 || len(t.Rows) < 2 {
+		return false
+	}
+	sepAlphabet := []string{"", "k", "k\x00", "\x00", "\x00b", "b", "k\x01", "k\x00b", "\x1f", "\t", "bc", "z"}
+	kc := pk
+	if len(kc) == 0 {
+		kc = []int{0, 1}
+	}
+	pairs := r.Perm(len(sepAlphabet) * len(sepAlphabet))
+	for i := 0; i < len(t.Rows) && i < len(pairs); i++ {
+		t.Rows[i][kc[0]] = sepAlphabet[pairs[i]/len(sepAlphabet)]
+		t.Rows[i][kc[1]] = sepAlphabet[pairs[i]%len(sepAlphabet)]
+	}
+	if len(pk) == 0 && nCols == 2 {
+		// no row may consist of empty cells only (a blank CSV line is not a record)
+		for _, row := range t.Rows {
+			if row[0] == "" && row[1] == "" {
+				row[1] = "\x00\x00"
+			}
+		}
+	}
+	r.Shuffle(len(t.Rows), func(i, j int) { t.Rows[i], t.Rows[j] = t.Rows[j], t.Rows[i] })
+	return true
 }
 
 func ingestNontrivial(in *ingestInput, res Res) bool {
@@ -488,7 +497,8 @@ func runC02(ctx *Ctx) {
 	}
 	n := genRowCount(r, maxBlocks)
 	t := GenTable(r, nCols, n, pk, 0) // unique keys
-	if len(t.Rows) > 0 && nCols >= 2 && r.Intn(3) == 0 {
+	prefixKeys := r.Intn(4) == 0 && plantPrefixKeys(r, t, pk)
+	if !prefixKeys && len(t.Rows) > 0 && nCols >= 2 && r.Intn(3) == 0 {
 		// one row whose key is all empty strings (still unique; it sorts first). Not for one-column
 		// tables: a lone empty cell is a blank CSV line, which is not a record.
 		i := r.Intn(len(t.Rows))
@@ -500,7 +510,11 @@ func runC02(ctx *Ctx) {
 			t.Rows[i][k] = ""
 		}
 	}
-	c02Case(ctx, t)
+	if prefixKeys {
+		c02Case(ctx, t, "prefix-keys")
+	} else {
+		c02Case(ctx, t)
+	}
 	if ctx.Idx%6 == 2 {
 		// in addition (draws after those of the case above): an ingest whose spill files cannot be
 		// written to the end (c02fault.go)
